@@ -29,9 +29,9 @@ theorem Tie_iohelper_SectionWriter_Seek (s : SectionWriter) (offset whence : Int
   by_cases h0 : whence = 0
   · by_cases hb : wrap64 (offset + s.base) < s.base <;> simp [h0, hb, ioErrId]
   · by_cases h1 : whence = 1
-    · by_cases hb : wrap64 (offset + s.off) < s.base <;> simp [h0, h1, hb, ioErrId]
+    · by_cases hb : wrap64 (offset + s.off) < s.base <;> simp [h1, hb, ioErrId]
     · by_cases h2 : whence = 2
-      · by_cases hb : wrap64 (offset + s.limit) < s.base <;> simp [h0, h1, h2, hb, ioErrId]
+      · by_cases hb : wrap64 (offset + s.limit) < s.base <;> simp [h2, hb, ioErrId]
       · simp [h0, h1, h2, ioErrId]
 
 example : Gen.Ssa.iohelper_SectionWriter_Seek 10 12 110 5 1 = (7, none, 17) := by decide
